@@ -47,6 +47,22 @@ pub const EDGE_PATTERNS: &[&str] = &[
     r"a?bc/(?:[a-z]+)",
 ];
 
+/// patterns that nest three node levels deep (a node that is the last child of a node that is not the last child of its
+/// parent, ...): explored insert-only, every insertion order of every subset
+pub const NESTED_PATTERNS: &[&str] = &[
+    r"/a/b",
+    r"/a/c/(?:[a-z]+)/d",
+    r"/a/c/(?:[a-z]+)/e",
+    r"/x/(?:[a-z]+)",
+    r"/y/(?:[a-z]+)",
+    r"/a/c/(?:[a-z]+)/e/f",
+    r"/x/y/(?:[0-9]+)",
+];
+
+/// letters with more than two case forms (Unicode simple case folding: sigma, long s, micro sign, kelvin sign) in the
+/// literal part: "ignore case" is the regex engine's folding, not to_lowercase()
+pub const FOLD_PATTERNS: &[&str] = &[r"/ς/(?:[a-z]+)", r"/σκ/(?:[0-9]+)", r"/ſt/(?:[a-z]+)", r"/µ/(?:[a-z]+)", r"/K/(?:[a-z]+)", r"/a/(?:[a-z]+)"];
+
 /// marker expressions whose character classes contain parentheses (own signature family)
 pub const CLASS_PATTERNS: &[&str] = &[
     r"/a/(?:[^)]+)",
@@ -66,6 +82,8 @@ pub const HAYSTACKS: &[&str] = &[
     "/a/]", "/a/()", "/a/q)/x", "/a/(/x", "/a/b(/y", "/a/]/x", "/a/b/y",
     "/a-b/x", "/a.c/x", "/éé/b", "/éé/1", "/éa/b", "/a/b.x", "/a/bXx",
     "abc/x", "Abc/x", "bc/x", "ABC/X",
+    "/a/c/q/d", "/a/c/q/e", "/a/c/q/e/f", "/x/q", "/y/q", "/x/y/7", "/x/y",
+    "/ς/b", "/Σ/b", "/σ/b", "/σκ/1", "/ΣΚ/1", "/ςκ/1", "/ſt/b", "/st/b", "/ST/b", "/µ/b", "/μ/b", "/Μ/b", "/K/b", "/k/b", "/\u{212a}/b",
 ];
 
 #[derive(Clone, Debug, Serialize, Deserialize, PartialEq, Eq)]
@@ -88,6 +106,9 @@ pub struct Config {
     pub ignore_case: bool,
     pub second_ids: bool,
     pub cache_ops: bool,
+    /// only first inserts (every insertion ORDER of every subset), to a greater depth
+    #[serde(default)]
+    pub insert_only: bool,
 }
 
 enum Tree {
@@ -462,6 +483,12 @@ impl<'a> Explorable for Model<'a> {
                 // re-insertion of a live (pattern, id) is allowed once per history (value replacement)
                 let n = s.versions.get(&(p, v)).copied().unwrap_or(0);
                 let id = id_of(&self.cfg, p, v);
+                if self.cfg.insert_only {
+                    if !s.live.contains_key(&(p, id)) {
+                        ops.push(Op::Insert(p, v));
+                    }
+                    continue;
+                }
                 if !s.live.contains_key(&(p, id.clone())) || n < 2 {
                     ops.push(Op::Insert(p, v));
                 }
@@ -469,6 +496,9 @@ impl<'a> Explorable for Model<'a> {
                     ops.push(Op::Remove(p, v));
                 }
             }
+        }
+        if self.cfg.insert_only {
+            return ops;
         }
         ops.push(Op::RemoveAbsent);
         if !s.live.is_empty() {
@@ -525,27 +555,37 @@ fn configs(tier: Tier) -> Vec<(Config, usize)> {
     let mut out = Vec::new();
     for ignore_case in [false, true] {
         out.push((
-            Config { set: "edge".into(), patterns: edge.clone(), unique: false, ignore_case, second_ids: false, cache_ops: false },
+            Config { set: "edge".into(), patterns: edge.clone(), unique: false, ignore_case, second_ids: false, cache_ops: false, insert_only: false },
             tier.pick(4, 5),
         ));
         out.push((
-            Config { set: "main".into(), patterns: main.clone(), unique: false, ignore_case, second_ids: true, cache_ops: true },
+            Config { set: "main".into(), patterns: main.clone(), unique: false, ignore_case, second_ids: true, cache_ops: true, insert_only: false },
             tier.pick(4, 5),
         ));
         out.push((
-            Config { set: "main-unique".into(), patterns: main.clone(), unique: true, ignore_case, second_ids: false, cache_ops: true },
+            Config { set: "main-unique".into(), patterns: main.clone(), unique: true, ignore_case, second_ids: false, cache_ops: true, insert_only: false },
             tier.pick(4, 6),
         ));
         out.push((
-            Config { set: "paren-inside-class".into(), patterns: class.clone(), unique: false, ignore_case, second_ids: false, cache_ops: false },
+            Config { set: "paren-inside-class".into(), patterns: class.clone(), unique: false, ignore_case, second_ids: false, cache_ops: false, insert_only: false },
             tier.pick(4, 5),
+        ));
+    }
+    for ignore_case in [false, true] {
+        out.push((
+            Config { set: "nested".into(), patterns: NESTED_PATTERNS.iter().map(|s| s.to_string()).collect(), unique: ignore_case, ignore_case: false, second_ids: false, cache_ops: false, insert_only: true },
+            tier.pick(6, 7),
+        ));
+        out.push((
+            Config { set: "case-folding".into(), patterns: FOLD_PATTERNS.iter().map(|s| s.to_string()).collect(), unique: false, ignore_case, second_ids: false, cache_ops: true, insert_only: false },
+            tier.pick(3, 4),
         ));
     }
     if tier == Tier::Thorough {
         // deeper, insert/remove only (no cache flags in the state): all insertion orders of every <=6-subset
         let small: Vec<String> = MAIN_PATTERNS[..8].iter().map(|s| s.to_string()).collect();
         out.push((
-            Config { set: "main-deep".into(), patterns: small, unique: false, ignore_case: false, second_ids: false, cache_ops: false },
+            Config { set: "main-deep".into(), patterns: small, unique: false, ignore_case: false, second_ids: false, cache_ops: false, insert_only: false },
             7,
         ));
     }
